@@ -4,6 +4,8 @@ import (
 	"fmt"
 	"sort"
 	"strings"
+
+	"github.com/hashicorp/hcl/v2"
 )
 
 func init() { props["C01"] = runC01; props["C02"] = runC02 }
@@ -70,7 +72,12 @@ func runC02(run *Run, replay string) {
 			run.Count("ranges_" + strings.ReplaceAll(rr.What, " ", "_"))
 			if why := badRange(s.W, rr); why != "" {
 				qn := strings.SplitN(q.Name, "(", 2)[0]
-				run.Violate(Violation{Key: fmt.Sprintf("C02/%s/%s/%s", strings.SplitN(why, ":", 2)[0], qn, strings.ReplaceAll(rr.What, " ", "-")),
+				key := fmt.Sprintf("C02/%s/%s/%s", strings.SplitN(why, ":", 2)[0], qn, strings.ReplaceAll(rr.What, " ", "-"))
+				if !strings.HasPrefix(why, "wrong-file") && parserRangesCached(s, rr.Path)[rr.Rng] {
+					// copied verbatim from the HCL parser's (recovered) syntax tree
+					key = "C02/parser-supplied-range-malformed"
+				}
+				run.Violate(Violation{Key: key,
 					Rule: "every emitted range is a real, self-consistent place in the right file", Func: qn,
 					Detail: fmt.Sprintf("%s: %s %s (%s)", q.Name, rr.What, rngString(rr), why), Replay: locWith(loc, q)})
 			}
@@ -131,4 +138,25 @@ func badRange(w *World, rr RRange) string {
 		}
 	}
 	return ""
+}
+
+var prCache = map[*Scenario]map[string]map[hcl.Range]bool{}
+
+func parserRangesCached(s *Scenario, path string) map[hcl.Range]bool {
+	m, ok := prCache[s]
+	if !ok {
+		prCache = map[*Scenario]map[string]map[hcl.Range]bool{} // keep only the current scenario
+		m = map[string]map[hcl.Range]bool{}
+		prCache[s] = m
+	}
+	if r, ok := m[path]; ok {
+		return r
+	}
+	for _, p := range s.W.Paths {
+		if p.Path.Path == path {
+			m[path] = parserRanges(p)
+			return m[path]
+		}
+	}
+	return map[hcl.Range]bool{}
 }
